@@ -242,6 +242,9 @@ def run_case(spec):
         forest_entries = add_refgroup_config(rng, model) if rng.random() < 0.3 else []
         gitdir = G.write_model(model, os.path.join(d, "repo"), skip_empty_tree=rng.random() < 0.5,
                                packed_refs=rng.random() < 0.3 or getattr(model, "force_packed", False))
+        if rng.random() < 0.05:
+            # the layout of a partial clone whose filter omitted nothing (promisor pack + promisor remote)
+            res["promisor_layout"] = G.make_promisor(gitdir)
         allobjs = model.all_objects()
         msg = G.selfcheck(gitdir, {k: v for k, v in allobjs.items() if not (k == G.EMPTY_TREE)})
         if msg:
@@ -464,6 +467,13 @@ def roots_model(rng):
         m.refs["refs/blobs/direct"] = big
     elif r < 0.8:
         m.refs["refs/tags/blobtag"] = G.Tag(big, name=b"blobtag")
+    if rng.random() < 0.25:
+        # a wide octopus merge: the commit with the most parents is one no ordinary history contains
+        t = pool.tree()
+        k = rng.choice([33, 64, 65, 70, 130, 300])
+        ps = [G.Commit(t, [], cts=1200000000 + i, msg=b"arm %d\n" % i) for i in range(k)]
+        m.refs[rng.choice(["refs/heads/octopus", "refs/tags/octopus", "refs/remotes/origin/octopus"])] = \
+            G.Commit(t, ps, cts=1300000000, msg=b"octopus\n")
     # branch and tag with the same short name
     if m.commits and rng.random() < 0.3:
         m.refs["refs/heads/same"] = m.commits[0]
